@@ -37,6 +37,8 @@ def run(ctx):
     B.b8_two_sided_acceptance(ctx)
     # "isomorphic to each other" is judged by the matcher: it must read specifications the way they are built
     B.b7_equivalence_steps(ctx)
+    B.b19_equiv_is_guarded_by_the_kind(ctx)
+    ctx.floor("B19", 4)
     B.b18_first_complete_matching_ends_the_backtracking(ctx)
     ctx.floor("B18", 1)
     # the specifications the finder builds go through the extractor: every class on a right-hand side gets a rule
